@@ -236,6 +236,7 @@ func (st *store) doQuery(v Variant, pos string, offset, limit int, to time.Durat
 		return r
 	case <-time.After(to):
 		st.poisoned = true
+		hangBudget.hit()
 		return qout{hang: true}
 	}
 }
@@ -295,28 +296,32 @@ func sameItems(a, b []Item) bool {
 	return true
 }
 
-// class names the input class of a failed expectation: the known defects live in narrow classes
+// class names the input class of a failed expectation. Only c16-merged-unsorted-negative-offset is a recorded finding
+// (the backward mix of a partition that is not stored in time order is not the reverse of the forward mix); the other
+// three name the input classes of defects that were repaired in /repo: a failure there is a regression (VIOLATION).
 func (st *store) class(v Variant, what string, offset int, firstRejected bool) string {
 	merged := len(st.parts) > 1
 	switch {
-	case v.ranged() && offset < 0 && (merged || v.Where):
-		return "c16-range-backward-past-first" // partition.JIterator never reports the backward end
-	case v.Where && merged && offset < 0:
-		return "c16-merged-filter-negative-offset" // fiterator buffer + iterateToPos
 	case merged && !st.sorted && offset < 0:
 		return "c16-merged-unsorted-negative-offset"
+	case v.ranged() && offset < 0 && (merged || v.Where):
+		return "c16-range-backward-past-first" // partition.JIterator must report the backward end and stay there
+	case v.Where && merged && offset < 0:
+		return "c16-merged-filter-negative-offset" // fiterator must drop its buffer on SetBackward
 	case (v.Where || v.ranged()) && offset > 0 && firstRejected:
-		return "c16-filter-positive-offset-first-rejected" // Offset(+k) starts with Next without a settling Get
+		return "c16-filter-positive-offset-first-rejected" // Offset(+k) must settle with a Get before its first Next
 	}
 	return "c16-" + what
 }
 
-// risky: requests on which the unchanged tree may loop forever. With RANGE the partition iterator never reports
-// the backward end (it yields its first record again and again), so a backward move that runs a partition out of
-// records can spin in fiterator.Get / iterateToPos. A RANGE request with a negative offset is predicted safe only if
-// the event the move ends on (target) lies, in time, strictly after the first stored event of every partition of a
-// time-ordered store (single partition: if the move stays inside the matching data). Risky requests are run in a
-// small number only, with a short deadline, each on a server that is abandoned when the request hangs.
+// risky: requests on which a partition iterator that does not report the backward end loops forever (the defect
+// c16-range-backward-past-first, repaired in /repo: the iterator yielded its first record again and again, so a
+// backward move that ran a partition out of records could spin in fiterator.Get / iterateToPos). On the repaired code
+// they all return; they are still run with a short deadline, each on a server that is abandoned when the request
+// hangs, and after three requests that did hang no further risky request is made in the run (a regression is reported
+// by the first of them). A RANGE request with a negative offset is not risky only if the event the move ends on
+// (target) lies, in time, strictly after the first stored event of every partition of a time-ordered store (single
+// partition: if the move stays inside the matching data).
 func (st *store) risky(v Variant, offset int, target *Item) bool {
 	if !v.ranged() || offset >= 0 {
 		return false
@@ -502,6 +507,7 @@ func (st *store) runScript(v Variant, what string, ops []Op, risky bool) (Case, 
 	case <-time.After(map[bool]time.Duration{false: finiteTimeout, true: hangTimeout}[risky]):
 		hang = true
 		st.poisoned = true
+		hangBudget.hit()
 	}
 	srcs, err := st.srcs(order, v)
 	if err != nil {
@@ -631,14 +637,18 @@ type budgetT struct {
 
 var hangBudget budgetT
 
-func (b *budgetT) take() bool {
+// exhausted: so many requests have hung in this run that no further risky request is made
+func (b *budgetT) exhausted() bool {
 	b.Lock()
 	defer b.Unlock()
-	if b.hangs <= 0 {
-		return false
-	}
+	return b.hangs <= 0
+}
+
+// hit records a request that did not return
+func (b *budgetT) hit() {
+	b.Lock()
 	b.hangs--
-	return true
+	b.Unlock()
 }
 
 // sweep runs every k for the variants of one store
@@ -688,7 +698,7 @@ func sweepStore(r *Rng, parts []PartSpec, vs []Variant, full bool) ([]Case, erro
 					target = &F[M-k]
 				}
 				risky := st.risky(v, q.off, target)
-				if risky && !hangBudget.take() {
+				if risky && hangBudget.exhausted() {
 					continue
 				}
 				limit := 10000
@@ -710,11 +720,12 @@ func sweepStore(r *Rng, parts []PartSpec, vs []Variant, full bool) ([]Case, erro
 			if j < M && j+k < M {
 				target = &F[j]
 			}
-			if v.ranged() && (target == nil || st.risky(v, -k, target)) {
+			risky := v.ranged() && (target == nil || st.risky(v, -k, target))
+			if risky && hangBudget.exhausted() {
 				continue
 			}
 			ops := []Op{{K: "offset", N: j}, {K: "get"}, {K: "offset", N: k}, {K: "get"}, {K: "offset", N: -k}, {K: "get"}, {K: "pos"}}
-			if err := add(st.runScript(v, "inverse", ops, false)); err != nil {
+			if err := add(st.runScript(v, "inverse", ops, risky)); err != nil {
 				return out, err
 			}
 			if err := reopen(); err != nil {
@@ -758,7 +769,8 @@ func run(c *Ctx) error {
 	}
 	hangBudget.hangs = 3
 
-	// ---- corpus: the witnesses of the refuted statements (props/C16.v), always first
+	// ---- corpus, always first: the witness of the statement that is still refuted (unsorted merge) and the witnesses of
+	// the three repaired defects (props/C16.v: C16_former_witnesses and the _refuted theorems about the former variants)
 	wit := []struct {
 		parts []PartSpec
 		v     Variant
@@ -767,7 +779,9 @@ func run(c *Ctx) error {
 	}{
 		{witnessParts(false), Variant{Where: true}, "tail", -4},
 		{witnessParts(false), Variant{Range: &[2]int64{0, 100}}, "tail", -4},
+		{witnessParts(false), Variant{Range: &[2]int64{0, 100}}, "tail", -7},
 		{witnessParts(true), Variant{}, "tail", -1},
+		{headWitnessParts(), Variant{Where: true}, "head", 1},
 	}
 	for _, w := range wit {
 		st, err := openStore(w.parts)
@@ -822,6 +836,13 @@ func witnessParts(unsorted bool) []PartSpec {
 	return []PartSpec{
 		{Tags: "p=p0,g=y", Chunks: [][]Ev{{{Ts: 1, Id: 1, A: true}, {Ts: 2, Id: 2, A: true}}, {{Ts: 3, Id: 3, A: true}}}},
 		{Tags: "p=p1,g=y", Chunks: [][]Ev{{{Ts: 10, Id: 101, A: true}}, {{Ts: 11, Id: 102, A: true}, {Ts: 12, Id: 103, A: true}}}},
+	}
+}
+
+// headWitnessParts: one partition [1,2,3] whose first event the WHERE filter rejects
+func headWitnessParts() []PartSpec {
+	return []PartSpec{
+		{Tags: "p=p0,g=y", Chunks: [][]Ev{{{Ts: 1, Id: 1, A: false}, {Ts: 2, Id: 2, A: true}, {Ts: 3, Id: 3, A: true}}}},
 	}
 }
 
